@@ -72,7 +72,9 @@ class UnicodeForPython3(str):
             return f"""u'{str(self.value)[1:]}'"""
 
         if is_ascii(utf8_value):
-            return f"""u'{utf8_value}'"""
+            # Let repr() do the escaping: a raw newline, quote or control
+            # character would otherwise end up in the listing as is.
+            return "u" + repr(utf8_value)
 
         # Turn the unicode character into its Unicode code point,
         # but strip of the leading "0x".
